@@ -15,17 +15,19 @@ Definition the_line (a : app) (st : state) (i : nat) : line :=
 
 Lemma line_of_spec : forall a st i l,
   In l (line_of a st i) <->
-  (live a st i = true /\ same_value (val_at st i) (default_of a st i) = false /\ l = the_line a st i).
+  (p_nodef (port_at a i) = false /\ live a st i = true /\
+   same_value (val_at st i) (default_of a st i) = false /\ l = the_line a st i).
 Proof.
   intros a st i l. unfold line_of, the_line.
-  destruct (live a st i); destruct (same_value (val_at st i) (default_of a st i)); simpl; split;
+  destruct (p_nodef (port_at a i)); destruct (live a st i);
+    destruct (same_value (val_at st i) (default_of a st i)); simpl; split;
     try tauto; try (intros [H|H]; [subst l; auto | contradiction]);
-    try (intros (H1 & H2 & H3); try discriminate; left; symmetry; assumption).
+    try (intros (H0 & H1 & H2 & H3); try discriminate; left; symmetry; assumption).
 Qed.
 
 Lemma save_lines_spec : forall a st l,
   In l (save_lines a st) <->
-  exists i, (i < length a)%nat /\ live a st i = true /\
+  exists i, (i < length a)%nat /\ p_nodef (port_at a i) = false /\ live a st i = true /\
             same_value (val_at st i) (default_of a st i) = false /\ l = the_line a st i.
 Proof.
   intros a st l. unfold save_lines. rewrite in_flat_map. split.
@@ -38,7 +40,7 @@ Qed.
    plain default of its own, and no default is a NaN *)
 Definition selectors_plain (a : app) : Prop :=
   forall i s, (i < length a)%nat -> p_sel (port_at a i) = Some s ->
-              (s < length a)%nat /\ p_sel (port_at a s) = None.
+              (s < length a)%nat /\ p_sel (port_at a s) = None /\ p_nodef (port_at a s) = false.
 Definition defaults_comparable (a : app) : Prop :=
   forall i, (i < length a)%nat -> same_value (initial_of a i) (initial_of a i) = true.
 
@@ -50,12 +52,13 @@ Proof.
 Qed.
 
 Lemma default_of_initial : forall a i,
-  selectors_plain a -> (i < length a)%nat -> default_of a (initial a) i = initial_of a i.
+  selectors_plain a -> (i < length a)%nat -> p_nodef (port_at a i) = false ->
+  default_of a (initial a) i = initial_of a i.
 Proof.
-  intros a i Hs Hi. unfold default_of, initial_of.
+  intros a i Hs Hi Hd. unfold default_of, initial_of. rewrite Hd.
   destruct (p_sel (port_at a i)) as [s|] eqn:E; simpl; [|reflexivity].
-  destruct (Hs i s Hi E) as [Hlt Hnone].
-  rewrite val_at_initial by assumption. unfold initial_of. rewrite Hnone. simpl. reflexivity.
+  destruct (Hs i s Hi E) as (Hlt & Hnone & Hnd).
+  rewrite val_at_initial by assumption. unfold initial_of. rewrite Hnd, Hnone. simpl. reflexivity.
 Qed.
 
 Theorem untouched_saves_nothing : forall a,
@@ -64,7 +67,7 @@ Proof.
   intros a Hs Hc.
   destruct (save_lines a (initial a)) as [|l r] eqn:E; [reflexivity|].
   assert (Hin : In l (save_lines a (initial a))) by (rewrite E; left; reflexivity).
-  apply save_lines_spec in Hin. destruct Hin as (i & Hi & _ & Hd & _).
+  apply save_lines_spec in Hin. destruct Hin as (i & Hi & Hn & _ & Hd & _).
   rewrite val_at_initial, default_of_initial in Hd by assumption.
   rewrite Hc in Hd by assumption. discriminate.
 Qed.
